@@ -421,8 +421,20 @@ func (p *Program) bindAnchoredClosures() {
 				hits = append(hits, a)
 			}
 		}
-		if len(hits) != 1 {
-			cs.AnchorErr = fmt.Sprintf("anchor %q matches %d function literals of %s", cs.Anchor, len(hits), name[:i])
+		if len(hits) == 0 {
+			// the anchored line itself was edited: fall back to the ordinal the contract is named after
+			continue
+		}
+		if len(hits) > 1 {
+			byOrdinal := false
+			for _, h := range hits {
+				if p.FuncName(h) == name {
+					byOrdinal = true
+				}
+			}
+			if !byOrdinal {
+				cs.AnchorErr = fmt.Sprintf("anchor %q matches %d function literals of %s", cs.Anchor, len(hits), name[:i])
+			}
 			continue
 		}
 		if now := p.FuncName(hits[0]); now != name {
